@@ -109,7 +109,7 @@ def hyp_case(draw, max_len):
         return {"seq": s, "perm": s[::-1], "warm": []}
     warm = draw(gens.warmups())
     s = draw(gens.sequences(max_len=40 if warm else max_len))
-    return {"seq": s, "perm": "".join(draw(st.permutations(list(s)))), "warm": warm}
+    return {"seq": s, "perm": "".join(draw(st.permutations(list(s)))), "warm": warm, "paste": draw(gens.paste_opt())}
 
 
 def _parts(tier):
